@@ -88,7 +88,9 @@ static uintptr_t policy_map(size_t length, _Bool unaligned, size_t sb)
 {
 	__CPROVER_assert(frgv_held_locks == 0, "C05: Policy::map called while a pool lock is held");
 	frgv_map_calls++;
+#ifndef MAP_SUCCEEDS          /* MAP_SUCCEEDS: the success path only (keeps every address concrete); map failure is covered by the runs without it */
 	if (nondet_bool()) { frgv_map_failed++; return 0; }
+#endif
 	size_t off = 0;
 	if (unaligned) { off = nondet_size_t(); __CPROVER_assume(off < sb && (off & 7) == 0); }     /* unaligned policy: arbitrary 8-aligned start */
 	char *p = arena_alloc(length + off);
@@ -585,6 +587,31 @@ void h_pa_realloc_slab(void)
 		if (!q) __CPROVER_assert(frgv_free_calls2 == 0 && frgv_blk_unp == oldreq && p[g] == pat, "C04: if that allocation fails the source block is untouched and stays live");
 		else __CPROVER_assert(q != p && frgv_free_calls2 == 1 && frgv_free_arg == p && q[g] == pat, "C02: the old contents are copied and the old block is freed exactly once");
 	}
+	__CPROVER_assert(frgv_held_locks == 0, "C05: no lock held on return");
+	FRGV_CANARY();
+}
+/* realloc of a LARGE block that does not fit its frame any more: one allocation of the new size, the whole old area is copied (every byte
+ * of it that the owner may have written: position g is arbitrary), the old block is freed once; allocate/free replaced by their contracts */
+#ifndef RL_NEW
+#define RL_AREA 0x200
+#define RL_NEW 0x300
+#endif
+void h_pa_realloc_large_move(void)
+{
+	POOL_INIT(pa, pool, ap);
+	const size_t area = RL_AREA;                       /* concrete: a copy of symbolic length is beyond the solver */
+	char *region = arena_alloc(area + PAGE);
+	uintptr_t ra_ = frgv_p2i(region);
+	struct pa_frame *f = (struct pa_frame *)region;
+	f->type = FT(pol_ap, large); f->address = ra_ + PAGE; f->length = area; f->sb_base = ra_; f->sb_reservation = area + PAGE;
+	char *p = region + PAGE;
+	size_t g = nondet_size_t(); __CPROVER_assume(g < area); char pat = p[g];
+	frgv_blk = p; frgv_blk_cap = area; frgv_blk_unp = area; frgv_alloc_calls = 0; frgv_free_calls2 = 0;
+	frgv_hdr = (char *)f; frgv_hdr_len = sizeof(*f); frgv_hdr_poisoned = 0;
+	char *q = pa_realloc(&pool, p, RL_NEW);
+	__CPROVER_assert(frgv_alloc_calls == 1 && frgv_alloc_len == RL_NEW, "C02: a large block that no longer fits its frame is reallocated by one allocation of the new size");
+	if (!q) __CPROVER_assert(frgv_free_calls2 == 0 && p[g] == pat, "C04: if that allocation fails the source block is untouched and stays live");
+	else __CPROVER_assert(q != p && frgv_free_calls2 == 1 && frgv_free_arg == p && q[g] == pat, "C02: the old contents (the whole old area) are copied and the old block is freed exactly once");
 	__CPROVER_assert(frgv_held_locks == 0, "C05: no lock held on return");
 	FRGV_CANARY();
 }
